@@ -15,18 +15,18 @@
 (***************************************************************************)
 EXTENDS Circuit, TraceBase, FiniteSets
 
-VARIABLES l, cur, masked, others, cnt, deltas, ndelta, owns, nown, viol, nruns
-vars == << l, cur, masked, others, cnt, deltas, ndelta, owns, nown, viol, nruns >>
+VARIABLES l, cur, masked, others, sent, cnt, deltas, ndelta, owns, nown, viol, nruns
+vars == << l, cur, masked, others, sent, cnt, deltas, ndelta, owns, nown, viol, nruns >>
 
-Init == /\ l = 1 /\ cur = [run |-> "none"] /\ masked = << >> /\ others = << >> /\ cnt = << >>
+Init == /\ l = 1 /\ cur = [run |-> "none"] /\ masked = << >> /\ others = << >> /\ sent = << >> /\ cnt = << >>
         /\ deltas = {} /\ ndelta = 0 /\ owns = {} /\ nown = 0 /\ viol = << >> /\ nruns = 0
 e == Rec[l]
 H == cur.tag.h
 
 \* input wires of h: register -> input bit of h
 WiresOf(c, h) == { c.insts[k].out : k \in { j \in InputInsts(c) : c.insts[j].a = h } }
-InputBit(c, inputs, h, reg) ==
-  LET k == CHOOSE j \in InputInsts(c) : c.insts[j].a = h /\ c.insts[j].out = reg IN inputs[h + 1][c.insts[k].b + 1]
+\* (an Input instruction writes the register with its own position: Circuit.InstOK)
+InputBit(c, inputs, h, reg) == inputs[h + 1][c.insts[reg + 1].b + 1]
 
 BitAt(v, reg) == IF v[reg + 1].some THEN (IF v[reg + 1].v = 1 THEN 1 ELSE 0) ELSE 2
 ShareBitAt(v, reg) == IF v[reg + 1].some THEN v[reg + 1].v[1] ELSE 0
@@ -48,8 +48,21 @@ OwnVec == [w \in Wires |-> (masked[w] + others[w] + (IF InputBit(cur.circ, cur.i
 MaskedEqualsInput == \A w \in Wires : masked[w] = (IF InputBit(cur.circ, cur.inputs, H, w) THEN 1 ELSE 0)
 MaskedEqualsComplement == \A w \in Wires : masked[w] # (IF InputBit(cur.circ, cur.inputs, H, w) THEN 1 ELSE 0)
 
+\* NoDisclosure (runs tagged `reuse`: many input wires, several preprocessing batches): the sequence of the
+\* party's own mask shares (in wire order) must not reappear among the mask shares it DISCLOSED to the other
+\* parties ("wire shares"), and vice versa -- as it does when one random stream is replayed inside an execution.
+\* Compared on windows of 64 bits (chance 2^-64 per alignment).
+SeqOf(S, f(_)) == LET RECURSIVE F(_) F(T) == IF T = {} THEN << >> ELSE LET m == CHOOSE x \in T : \A y \in T : x <= y IN << f(m) >> \o F(T \ {m}) IN F(S)
+Win == 64
+Reappears(a, b) == Len(a) >= Win /\ Len(b) >= Win /\
+                   \E st \in 1..(Len(b) - Win + 1) : \/ SubSeq(b, st, st + Win - 1) = SubSeq(a, 1, Win)
+                                                      \/ \A k \in 1..Win : b[st + k - 1] # a[k]
 RunBad ==
   IF e.ev = "end" /\ (\E w \in Wires : masked[w] = 2) THEN "no masked input broadcast seen for an input wire"
+  ELSE IF e.ev = "end" /\ cur.tag.reuse /\ (LET ov == OwnVec
+                                                  os == SeqOf(Wires, LAMBDA w : ov[w]) IN
+                                              Reappears(os, sent) \/ Reappears(sent, os))
+    THEN "the party's own mask shares repeat mask shares it disclosed to others (one random stream replayed)"
   ELSE IF e.ev = "end" /\ cur.tag.canary /\ (MaskedEqualsInput \/ MaskedEqualsComplement)
     THEN "the broadcast vector equals the plain input bits (or their complement)"
   ELSE IF e.ev = "canary" /\ e.hits > 0 THEN "the plain input bits appear in the party's traffic"
@@ -75,6 +88,10 @@ Next ==
   /\ others' = IF e.ev = "cfg" THEN [w \in WiresOf(e.circ, e.tag.h) |-> 0]
                ELSE IF e.ev = "msg" /\ e.ph = "wire shares" /\ e.to = H
                     THEN [w \in Wires |-> (others[w] + ShareBitAt(e.v, w)) % 2] ELSE others
+  /\ sent' = IF e.ev = "cfg" THEN << >>
+             ELSE IF e.ev = "msg" /\ e.ph = "wire shares" /\ e.from = H
+                  THEN sent \o SelectSeq([k \in 1..Len(e.v) |-> IF e.v[k].some THEN e.v[k].v[1] ELSE 2], LAMBDA b : b # 2)
+             ELSE sent
   /\ cnt' = IF e.ev = "end" /\ ~cur.tag.canary /\ (\A w \in Wires : masked[w] # 2) THEN BumpAll(cnt, Wires) ELSE cnt
   /\ deltas' = IF e.ev = "probe" /\ e.name = "delta" THEN deltas \cup {e.vals[1]} ELSE deltas
   /\ ndelta' = IF e.ev = "probe" /\ e.name = "delta" THEN ndelta + 1 ELSE ndelta
